@@ -1,5 +1,5 @@
 CONSTANTS Clients = {1, 2, 3} Services = {"ttx", "wss", "x"} Supported = {"ttx", "wss"} Base = 1 S = 4 MaxFrames = 1000
-  Threaded = FALSE LevelsUsed = {0, 2} Discards = {FALSE} Depth = 90 WTick = 40 WRead = 8
+  Threaded = FALSE LevelsUsed = {0, 2} Discards = {FALSE} Faulty = {} Depth = 90 WTick = 40 WRead = 8
 SPECIFICATION GSpec
 CONSTRAINT Dump
 CHECK_DEADLOCK FALSE
